@@ -9,7 +9,9 @@ PROP = "C17"
 LEVEL = "exploration"
 RULE = ("complete enumeration of a box around the domain boundary: max_n in "
         "-1..N, unit counts 0..max_n+2, all four StorageType members, "
-        "period -1..4, both trajectories, binomial_snapshots 0..3, every "
+        "period -1..4, both trajectories, binomial_snapshots 0..3, ten "
+        "extreme cost vectors (disk 10^4..10^6 times a step, free disk, "
+        "steps of 10^-4 / 10^6) for the Revolve family, every "
         "finalisation point 1..N for the online classes; valid tuples must "
         "construct and yield a complete, executor-clean stream; invalid "
         "tuples (max_n < 1, period < 1, no unit for max_n > 1, storage not "
@@ -50,6 +52,23 @@ def cases(tier, seed):
             for st in ("RAM", "DISK", "WORK", "NONE"):
                 out.append({"cfg": {"cls": "Mixed", "n": n, "s": ram,
                                     "storage": st}})
+    # valid tuples with extreme (but positive / non-negative) step costs:
+    # very expensive and free disk, very cheap and very expensive steps
+    extremes = [([1, 1, 8000, 8000], (1, 2)), ([1e-4, 1, 2, 2], (1,)),
+                ([1, 1e6, 2, 2], (1, 2)), ([1e6, 1, 2, 2], (1, 2)),
+                ([1, 1, 1e5, 0], (1,)), ([1, 1, 1e6, 1e6], (1,)),
+                ([1, 1, 20000, 100], (1,)), ([1, 1, 0, 0], (1, 2, 3)),
+                ([0.5, 0.25, 0.125, 0], (1, 2)), ([3, 1, 700, 0.5], (1, 2))]
+    for v, rams in extremes:
+        for ram in rams:
+            for n in (1, 2, 3, 7, 12):
+                for c in ("Revolve", "DiskRevolve", "PeriodicDiskRevolve"):
+                    out.append({"cfg": {"cls": c, "n": n, "ram": ram,
+                                        "costs": list(v)}})
+                for d in (0, 1, 3):
+                    out.append({"cfg": {"cls": "HRevolve", "n": n,
+                                        "ram": ram, "disk": d,
+                                        "costs": list(v)}})
     for p in range(-1, 5):
         for bs in range(0, 4):
             for st in ("RAM", "DISK", "WORK", "NONE"):
